@@ -319,6 +319,74 @@ def run(prog, rep, tier='quick', config='default'):
             rep.violation('R14b', 'rename-source-is-created-temp', where=c.where(), fn=c.fn.name,
                           detail='the file renamed over the live cache (%s) is not the file that was written (%s)' % (sorted(ps0), sorted(create_producers)))
 
+    # the temp name and the live name are built from the same, unmodified (directory, year) arguments
+    ARG_PASS = {'deref', 'borrow', 'as_ref', 'clone', 'as_path', 'as_os_str', 'to_path_buf', 'to_owned', 'into', 'from'}
+
+    def arg_sig(fn, op):
+        if not is_place(op):
+            return ('const', op.get('v'))
+        o = mir.provenance(fn, op, pass_through=ARG_PASS)
+        modified = bool(o.binops) or any(x.short not in ARG_PASS for x in o.calls)
+        return ('modified' if modified else 'plain', tuple(sorted(o.params)), tuple(sorted(f for _, f in o.fields)))
+
+    def producer_calls(fn, op):
+        o = mir.provenance(fn, op)
+        out = []
+        for x in o.calls:
+            g = prog.resolve(x.callee, fn.crate)
+            if g is not None and 'PathBuf' in g.ty.get(0, ''):
+                out.append(x)
+        return out
+
+    for (k, c, v, ps0) in live_renames:
+        src_calls = producer_calls(c.fn, c.args[0])
+        dst_calls = producer_calls(c.fn, c.args[1])
+        sigs = []
+        bad = None
+        for x in src_calls + dst_calls:
+            sg = tuple(arg_sig(c.fn, a) for a in x.args)
+            sigs.append(sg)
+            if any(t[0] == 'modified' for t in sg):
+                bad = 'an argument of %s is computed (not passed through) at %s' % (short(x.callee), x.where())
+        if not bad and len(set(sigs)) > 1:
+            bad = 'the temp name and the live name are built from different arguments'
+        # across helpers: the writer hands the same (directory, year) to the create helper and to the commit helper
+        if not bad:
+            for (k2, c2, v2) in creates:
+                if v2 is v or v2.fn is not v.fn or c2.fn is c.fn:
+                    continue
+                a1 = {arg_sig(v.fn, a) for a in v.args if is_place(a) and re.search(r'Path|^u32$|^i32$', v.fn.ty.get(op_local(a), ''))}
+                a2 = {arg_sig(v2.fn, a) for a in v2.args if is_place(a) and re.search(r'Path|^u32$|^i32$', v2.fn.ty.get(op_local(a), ''))}
+                if a1 != a2 or any(t[0] == 'modified' for t in a1 | a2):
+                    bad = 'the helper that creates the temp file and the helper that renames it are given different (directory, year) arguments'
+                cc = producer_calls(c2.fn, c2.args[-1] if 'OpenOptions' in c2.callee else c2.args[0])
+                for x in cc:
+                    if any(arg_sig(c2.fn, a)[0] == 'modified' for a in x.args):
+                        bad = 'an argument of %s is computed (not passed through) at %s' % (short(x.callee), x.where())
+        if bad:
+            rep.violation('R14b', 'temp-and-live-name-from-same-arguments', where=c.where(), fn=c.fn.name,
+                          detail='%s: the file that is fsynced and the file that is renamed over the live name would not be the same file, so an '
+                                 'unsynced or left-over file can become the trusted cache' % bad)
+        else:
+            rep.ok('R14b', 'temp-and-live-name-from-same-arguments', where=c.where(), fn=c.fn.name,
+                   detail='both names are built from the same pass-through (directory, year) arguments, in the helper that creates and in the one that renames')
+
+    # R14f: the temp file starts empty
+    for (k, c, v) in creates:
+        if re.search(r'File::create(_new)?$', c.callee):
+            rep.ok('R14f', '%s|temp-file-opened-truncating' % c.fn.name, where=c.where(), fn=c.fn.name, detail='%s truncates / creates' % short(c.callee))
+            continue
+        o = mir.provenance(c.fn, c.args[0], follow_all_call_args=True)
+
+        def flag(name):
+            return any(x.short == name and len(x.args) > 1 and str(x.args[1].get('v')) == 'true' for x in o.calls)
+        if (flag('truncate') or flag('create_new')) and not flag('append'):
+            rep.ok('R14f', '%s|temp-file-opened-truncating' % c.fn.name, where=c.where(), fn=c.fn.name, detail='OpenOptions with truncate(true) / create_new(true)')
+        else:
+            rep.violation('R14f', '%s|temp-file-opened-truncating' % c.fn.name, where=c.where(), fn=c.fn.name,
+                          detail='the temp file is opened without truncation (or in append mode): bytes left by an interrupted earlier write '
+                                 'stay in front of the new content and are renamed over the live cache with it')
+
     def precedes(a, b):
         """event a always happens before event b (a = (kind, call, via))"""
         (_, ca, va), (_, cb, vb) = a, b
